@@ -7,11 +7,17 @@ import RulioProofs.Crolt
 In-memory cron: `CronM` (RulioModel/CronTimeline.lean), a state machine over `Op` = advance / add / rem / tick / done /
 suspend / resume / pauseBegin / pauseEnd. All theorems quantify over *arbitrary* operation lists (ticks may come at
 any time, `Fn`s may return in any order, commands at any point) from the initial state `init limit`.
-Bolt-backed cron: `Crolt` (RulioModel/Crolt.lean), operations = the service's Bolt transactions.
+Bolt-backed cron: `Crolt` (RulioModel/Crolt.lean), operations = the service's Bolt transactions; the life of one recurring
+job with jitter is `Crolt.RState`.
 
-The comparison operators (`readyTest`, `searchTest`, `limitTest`, `dueCmp`) and the presence of the decisive statements
-(`scheduleRemsFirst`, `remErases`, `popDropsHead`, `rescheduleOnce`, `resumeRearms`, `updateDeletesOld`, `deleteRemovesTime`, …)
-are regenerated from the Go source into `RulioModel/Gen/C16.lean` on every run; the proofs below depend on their values. -/
+The comparison operators (`readyTest`, `searchTest`, `limitTest`, `dueCmp`), the jitter offset (`jitterSub`) and the presence of
+the decisive statements (`scheduleRemsFirst`, `remErases`, `popDropsHead`, `rescheduleOnce`, `resumeRearms`, `tickRearmsAlways`,
+`popTracksRunning`, `remCancelsRunning`, `rescheduleViaRunning`, `addClearsTid`, `updateDeletesOld`, `deleteRemovesTime`, …)
+are regenerated from the Go source into `RulioModel/Gen/C16.lean` on every run; the proofs below depend on their values.
+The theorems `timer_armed`, `early_delivery_rearms`, `no_starvation`, `removed_never_fires`, `rem_during_fn_removes`,
+`replace_during_fn_wins`, `unique_pending_per_id`, `crolt_tid_is_servers`, `crolt_not_before_due` and
+`crolt_one_run_per_occurrence` hold since the repairs of the findings C16-rem-head-disarms, C16-rem-in-flight,
+C16-crolt-tid-injection and C16-crolt-jitter-double-fire (before them their negations were proved here, with witnesses). -/
 
 open CronM in
 /-- After every sequence of Add / Rem / replace / pop (tick) / re-schedule (done) / control operations the timeline is sorted
@@ -20,6 +26,18 @@ theorem timeline_sorted_unique (limit : Nat) (ops : List Op) :
     (run (init limit) ops).tl.Pairwise (fun a b => a.next ≤ b.next) ∧
     (run (init limit) ops).tl.Pairwise (fun a b => a.id ≠ b.id) :=
   ⟨(WF_run (WF_init limit) ops).sorted, (WF_run (WF_init limit) ops).nodupId⟩
+
+open CronM in
+/-- At most one entry per job id also counting the recurring jobs whose `Fn` is executing and which will be put back on the
+timeline when it returns (`c.running`): after every history — including removals and replacements issued while an `Fn` of
+that id runs — the ids of `Timeline ++ running` are pairwise different, and `running` holds only recurring jobs whose `Fn`
+has not returned. So the return of an `Fn` can never create a second pending entry for an id. -/
+theorem unique_pending_per_id (limit : Nat) (ops : List Op) :
+    let s := run (init limit) ops
+    (s.tl ++ s.running).Pairwise (fun a b => a.id ≠ b.id) ∧ ∀ j ∈ s.running, j ∈ s.inflight ∧ j.period ≠ 0 := by
+  intro s
+  have hw : WF s := WF_run (WF_init limit) ops
+  exact ⟨hw.nodupIdR, fun j hj => ⟨hw.runSub.subset hj, hw.runRec j hj⟩⟩
 
 open CronM in
 /-- Every invocation of a job's `Fn` happens at a loop time `≥` the job's `Next` (whatever the interleaving, also for stale
@@ -109,48 +127,93 @@ theorem recurring_once_per_occurrence (limit : Nat) (ops : List Op) (k : Nat) :
     exact ⟨d hp, b⟩
 
 open CronM in
-/-- … and when its `Fn` returns it is put back on the timeline for the first occurrence after that moment. -/
+/-- … and when its `Fn` returns it is put back on the timeline for the first occurrence after that moment — provided it is
+still registered in `c.running`, i.e. was neither removed nor replaced while `Fn` ran (`rem_during_fn_removes`). -/
 theorem recurring_rescheduled (limit : Nat) (ops : List Op) (j : Job) :
     let s := run (init limit) ops
-    j ∈ s.inflight → j.period ≠ 0 →
+    j ∈ s.running →
     ∃ j' ∈ (step s (.done j.serial)).tl, j'.serial = j.serial ∧ j'.id = j.id ∧ j'.next = nextOcc j.period s.clock ∧ s.clock < j'.next := by
-  intro s hj hp
+  intro s hjr
   have hw : WF s := WF_run (WF_init limit) ops
+  have hj : j ∈ s.inflight := hw.runSub.subset hjr
+  have hp : j.period ≠ 0 := hw.runRec j hjr
   simp only [step]
-  rcases done_cases s j.serial with ⟨_, hno⟩ | ⟨j2, hj2, hser, ⟨h0, _⟩ | ⟨_, e⟩⟩
+  rcases done_cases s j.serial with ⟨_, hno⟩ | ⟨j2, hj2, hser, hc⟩
   · exact absurd rfl (hno j hj)
-  all_goals
-    -- the job found is j itself (serials of live jobs are unique)
-    have hj2eq : j2 = j := by
-      have hinf : s.inflight.Pairwise (fun a b => a.serial ≠ b.serial) := (List.pairwise_append.1 hw.nodupSer).2.1
+  · have hj2eq : j2 = j := by
       by_cases e2 : j2 = j
       · exact e2
-      · exfalso
-        obtain ⟨l1, l2, hl⟩ := List.append_of_mem hj
-        rw [hl] at hj2 hinf
-        rcases List.mem_append.1 hj2 with h1 | h1
-        · exact (List.pairwise_append.1 hinf).2.2 j2 h1 j (by simp) hser
-        · rcases List.mem_cons.1 h1 with h1 | h1
-          · exact e2 h1
-          · exact (List.pairwise_cons.1 (List.pairwise_append.1 hinf).2.1).1 j2 h1 hser.symm
+      · exact absurd hser (pairwise_mem_ne (fun a b hab => fun e => hab e.symm) hw.nodupSerInfl j2 hj2 j hj e2)
     subst hj2eq
-  · exact absurd h0 hp
-  · rw [e, schedule_tl_nolimit]
-    refine ⟨schedJob s.clock j2, mem_insertJob.2 (Or.inl rfl), (schedJob_id _ _).2.1, (schedJob_id _ _).1, ?_⟩
-    rcases schedJob_next s.clock j2 with ⟨h0, _⟩ | ⟨_, hn⟩
+    rcases hc with ⟨h0, _⟩ | ⟨_, e⟩
     · exact absurd h0 hp
-    · exact ⟨hn, hn ▸ nextOcc_gt hp⟩
+    · rw [e]
+      rcases reschedule_cases { s with inflight := s.inflight.eraseP (fun x => x.serial == j2.serial) } j2 with ⟨_, hno⟩ | ⟨_, e2⟩
+      · exact absurd rfl (hno j2 hjr)
+      · rw [e2]
+        refine ⟨schedJob s.clock j2, mem_insertJob.2 (Or.inl rfl), (schedJob_id _ _).2.1, (schedJob_id _ _).1, ?_⟩
+        rcases schedJob_next s.clock j2 with ⟨h0, _⟩ | ⟨_, hn⟩
+        · exact absurd h0 hp
+        · exact ⟨hn, hn ▸ nextOcc_gt hp⟩
 
 open CronM in
-/-- `Rem id` of a job that is pending (no job with that id is in flight) means that id never fires again unless re-added:
-every later fire under that id belongs to a job object created by an `Add` issued after the `Rem`. -/
-theorem removed_pending_never_fires (limit : Nat) (pre post : List Op) (id : Nat) :
+/-- `Rem id` means that id never fires again unless re-added, whether the job was pending or its `Fn` was running at that
+moment: every later fire under that id belongs to a job object created by an `Add` issued after the `Rem`. (No hypothesis on the
+state: all prefixes, all continuations.) -/
+theorem removed_never_fires (limit : Nat) (pre post : List Op) (id : Nat) :
     let s := run (init limit) pre
-    (∀ j ∈ s.inflight, j.id ≠ id) →
     ∀ f ∈ (run s (.rem id :: post)).log, f.id = id → f ∈ s.log ∨ s.serial ≤ f.serial := by
-  intro s hnf f hf hid
+  intro s f hf hid
   have hw : WF s := WF_run (WF_init limit) pre
-  exact (removed_track hw id hnf post).fires f hf (by simpa using hid)
+  exact (removed_track hw id post).fires f hf (by simpa using hid)
+
+open CronM in
+/-- A `Rem` issued while the job's `Fn` runs (the recurring job `j` is registered in `c.running`) finds the job (`found = true`),
+takes it off `c.running`, and when `Fn` returns afterwards nothing is put back on the timeline; by `removed_never_fires` the id
+then never fires again unless re-added. -/
+theorem rem_during_fn_removes (limit : Nat) (ops : List Op) (j : Job) :
+    let s := run (init limit) ops
+    j ∈ s.running →
+    remFound s j.id = true ∧ j ∉ (step s (.rem j.id)).running ∧ j ∈ (step s (.rem j.id)).inflight ∧
+    (step (step s (.rem j.id)) (.done j.serial)).tl = (step s (.rem j.id)).tl ∧
+    ∀ x ∈ (step (step s (.rem j.id)) (.done j.serial)).tl ++ (step (step s (.rem j.id)) (.done j.serial)).running, x.id ≠ j.id := by
+  intro s hjr
+  have hw : WF s := WF_run (WF_init limit) ops
+  have hw1 : WF (step s (.rem j.id)) := WF_step hw _
+  have hrc : C16Gen.remCancelsRunning = true := rfl
+  have hnone : ∀ x ∈ (step s (.rem j.id)).tl ++ (step s (.rem j.id)).running, x.id ≠ j.id := by
+    intro x hx
+    rcases List.mem_append.1 hx with hx | hx
+    · exact remJob_no_id hw.nodupId x hx
+    · exact cancelRunning_no_id hw.nodupIdRun x hx
+  have hnr : j ∉ (step s (.rem j.id)).running := fun h => hnone j (List.mem_append.2 (Or.inr h)) rfl
+  have hinf : j ∈ (step s (.rem j.id)).inflight := hw.runSub.subset hjr
+  have hd := done_cancelled hw1 hinf (hw.runRec j hjr) hnr
+  refine ⟨?_, hnr, hinf, ?_, ?_⟩
+  · simp only [remFound, hrc, hasJob, Bool.true_and]
+    have : s.running.any (fun x => x.id == j.id) = true := List.any_eq_true.2 ⟨j, hjr, by simp⟩
+    rw [this]; simp
+  · show (done (step s (.rem j.id)) j.serial).tl = _
+    rw [hd]
+  · show ∀ x ∈ (done (step s (.rem j.id)) j.serial).tl ++ (done (step s (.rem j.id)) j.serial).running, x.id ≠ j.id
+    rw [hd]; exact hnone
+
+open CronM in
+/-- An `Add` for an id that exists replaces the job, also while the old job's `Fn` runs: every later fire under that id belongs to
+this `Add` or a later one (the replaced job object never fires again), and the return of any `Fn` — in particular the old job's —
+leaves the new entry on the timeline (before the repair `Cron.run` removed it and put the old job back). -/
+theorem replace_during_fn_wins (limit : Nat) (pre post : List Op) (id due period : Nat) :
+    let s := run (init limit) pre
+    (∀ f ∈ (run s (.add id due period :: post)).log, f.id = id → f ∈ s.log ∨ s.serial ≤ f.serial) ∧
+    ((∀ o ∈ post, (∃ k, o = .done k) ∨ o.isControl = true) →
+      ∀ x ∈ (step s (.add id due period)).tl, x ∈ (run s (.add id due period :: post)).tl) := by
+  intro s
+  have hw : WF s := WF_run (WF_init limit) pre
+  refine ⟨?_, ?_⟩
+  · intro f hf hid
+    exact (replaced_track hw id due period post).fires f hf (by simpa using hid)
+  · intro hpost x hx
+    exact run_tl_keep (step s (.add id due period)) post hpost hx
 
 open CronM in
 /-- Suspending, pausing, resuming and the passage of time never drop a pending or running job and never fire one … -/
@@ -188,38 +251,56 @@ theorem resume_rearms (s : Cron) :
   · intro j rest h; simp [rearm, h]
 
 open CronM in
-/-- PARTIAL (liveness of the timer). Full statement wanted by the property: in every reachable state that is neither suspended nor
-paused and has a pending job, the timer is armed for the head of the timeline — so that the timer contract delivers the ticks
-`oneshot_exactly_once` asks for. That is FALSE for the real code (`rem_head_disarms`). Proved: it holds along every history without
-`Rem` and without an `Add` rejected for capacity (`Calm`); those two operations take the head away without re-arming. -/
-theorem timer_armed_partial (limit : Nat) (ops : List Op) (h : Calm (init limit) ops) :
+/-- In every reachable state that is neither suspended nor paused and has a pending job, the timer is armed, for a time no later
+than the head's due time — after every history, removals of the head and `Add`s rejected for capacity included (those leave the
+timer pointing at the removed job's earlier time). -/
+theorem timer_armed (limit : Nat) (ops : List Op) :
+    let s := run (init limit) ops
+    s.suspended = false → s.paused = false → ∀ j rest, s.tl = j :: rest → ∃ t, s.armed = some t ∧ t ≤ j.next := by
+  intro s
+  exact ArmedLe_run (WF_init limit) (ArmedLe_init limit) ops
+
+open CronM in
+/-- A delivery of the timer that finds the head of the timeline not ready (the timer was armed for a job removed since, or the
+delivery is a stale one) re-arms the timer for exactly the head's due time and changes nothing else. -/
+theorem early_delivery_rearms (s : Cron) (j : Job) (rest : List Job) :
+    s.paused = false → s.tl = j :: rest → s.clock < j.next →
+    (tick s).armed = some j.next ∧ (tick s).tl = s.tl ∧ (tick s).log = s.log ∧ (tick s).running = s.running := by
+  intro hp htl hlt
+  obtain ⟨i1, _, i3, _, _, _, _, _, i9⟩ := tickIdle_fields s
+  rcases tick_cases s with ⟨_, h⟩ | ⟨e, _, _⟩ | ⟨j', rest', _, h1, hr, _⟩
+  · rw [hp] at h; cases h
+  · rw [e]
+    refine ⟨?_, i1, i3, i9⟩
+    unfold tickIdle; rw [htl]; rfl
+  · rw [htl] at h1; cases h1
+    have := readyTest_le hr
+    omega
+
+open CronM in
+/-- Liveness, over all histories: after any sequence of Add / Rem / replace / Suspend / Resume / Pause / ticks / returns of `Fn`s,
+if the loop is neither suspended nor paused, every pending job whose due time has passed fires — the timer contract ("an armed
+timer whose target has come is delivered") yields `pre.length + 1` deliveries, each of them due, and they fire the jobs ahead of
+`j` and then `j` itself, at the current clock reading. -/
+theorem no_starvation (limit : Nat) (ops : List Op) (pre : List Job) (j : Job) (post : List Job) :
+    let s := run (init limit) ops
+    s.suspended = false → s.paused = false → s.tl = pre ++ j :: post → j.next ≤ s.clock →
+    ∃ s', deliverN (pre.length + 1) s = some s' ∧ fireOf j s.clock ∈ s'.log ∧ s'.tl = post := by
+  intro s hs hp htl hdue
+  have hw : WF s := WF_run (WF_init limit) ops
+  have ha : ArmedLe s := ArmedLe_run (WF_init limit) (ArmedLe_init limit) ops
+  obtain ⟨s', h1, h2, h3, _⟩ := deliverN_fires hw ha hs hp pre j post htl hdue
+  exact ⟨s', h1, h2, h3⟩
+
+open CronM in
+/-- Along histories without `Rem` and without an `Add` rejected for capacity (`Calm`) the timer is armed for exactly the head's due
+time: no delivery ever comes early. -/
+theorem timer_exact_when_calm (limit : Nat) (ops : List Op) (h : Calm (init limit) ops) :
     let s := run (init limit) ops
     s.suspended = false → s.paused = false → ∀ j rest, s.tl = j :: rest → s.armed = some j.next := by
   intro s hs hp j rest htl
   have := Armed_run (Armed_init limit) ops h hs hp (by rw [htl]; simp)
   rw [this, htl]; rfl
-
-/-! ## negative theorems: what the real code gets wrong (witnesses replayed on the implementation by the check) -/
-
-open CronM in
-/-- KNOWN FINDING rem-in-flight: `Rem` of a recurring job while its `Fn` runs finds nothing, the job is re-scheduled when `Fn`
-returns and fires again — the hypothesis "not in flight" of `removed_pending_never_fires` cannot be dropped. -/
-theorem rem_inflight_undone :
-    let pre : List Op := [.add 7 0 10, .advance 10, .tick]
-    let post : List Op := [.done 0, .advance 10, .tick]
-    let s := run (init 5) pre
-    hasJob 7 s.tl = false ∧
-    ∃ f ∈ (run s (.rem 7 :: post)).log, f.id = 7 ∧ f ∉ s.log ∧ f.serial < s.serial := by
-  refine ⟨by decide, ⟨7, 0, 10, 20, 20⟩, by decide, rfl, by decide, by decide⟩
-
-open CronM in
-/-- KNOWN FINDING rem-head-disarms: `Rem` does not re-arm the timer. After removing the head of the timeline the timer still
-points at the removed job's time; when it is delivered nothing is ready and nothing re-arms it: a job stays pending with the
-timer stopped, although the cron is neither suspended nor paused (it fires only if some later Add/resume re-arms). -/
-theorem rem_head_disarms :
-    let s := run (init 5) [.add 1 100 0, .add 2 200 0, .rem 1, .advance 100, .tick, .advance 1000]
-    s.tl.map (·.id) = [2] ∧ s.armed = none ∧ s.suspended = false ∧ s.paused = false ∧ s.log = [] := by
-  decide
 
 /-! ## Bolt-backed cron service -/
 
@@ -227,8 +308,9 @@ open Crolt in
 /-- After every history of the service's transactions (Add, Delete, work with any cursor choices and any new due times, reopen)
 the two buckets agree key for key: `jobs[aid].TId` is a key of `time` holding the same job and vice versa. Every prefix of a
 history is a history, `reopen` is the identity on the file, so this holds at every reopen point — given that a Bolt transaction
-is atomic and durable. `Legal`: callers pass fresh jobs, and no other `Add` of the same id commits between the exists-check and
-the update of an `Add`. -/
+is atomic and durable. `Legal` asks nothing of the jobs passed to `Add` (any `TId`, any flags in the request body); it only says
+that the writing transaction of an `Add` taken alone (`addCommit`) runs while the job does not exist, which the real `Add`
+checks inside that transaction. -/
 theorem buckets_consistent (ops : List Op) (h : Legal {} ops) : BInv (run {} ops) :=
   BInv_run BInv_empty ops h
 
@@ -271,8 +353,9 @@ theorem crolt_oneshot_once_partial (db : DB) (now : Nat) (k : TId) (ts : Nat) (v
     · simp [update, setFlags, get_put_same]
 
 open Crolt in
-/-- KNOWN FINDING crolt-add-race: `Add` checks existence in one transaction and writes in another; two concurrent adds of one
-id both pass the check and the second commit leaves two entries in the time index for one job (and the first is orphaned). -/
+/-- Why `Legal` needs its hypothesis on `addCommit` (the former finding crolt-add-race, repaired by re-checking inside the writing
+transaction): two writing transactions of `Add` for one id, neither re-checking existence, leave two entries in the time index for
+one job (and the first is orphaned). -/
 theorem crolt_concurrent_add_two_entries :
     let j : Job := ⟨1, none, true, false, false⟩
     let db := run {} [.addCommit j 10, .addCommit j 20]
@@ -281,14 +364,32 @@ theorem crolt_concurrent_add_two_entries :
   decide
 
 open Crolt in
-/-- FINDING crolt-tid-injection: `AddHandler` stores the `tid` field of the request body; `update` deletes that key from the time
-index. A client that names another job's `tid` removes that job from the index: it stays in `jobs` and never runs. -/
-theorem crolt_tid_injection_breaks :
-    let a : Job := ⟨1, none, true, false, false⟩
-    let b : Job := ⟨2, some ⟨10, 1⟩, true, false, false⟩
-    let db := run {} [.add a 10, .add b 20]
-    (get 1 db.jobs).map (·.tid) = some (some ⟨10, 1⟩) ∧ get ⟨10, 1⟩ db.time = none := by
-  decide
+/-- The `TId` of the job handed to `Add` (through `AddHandler`: any string the client put into the request body) is never used:
+`Add` changes no entry of the time index and no entry of the jobs bucket that belongs to another job. Together with
+`buckets_consistent` (which asks nothing of the jobs passed to `Add`): the only time entry an `update` ever deletes is the updated
+job's own, the one its stored version points to. -/
+theorem crolt_tid_is_servers (db : DB) (j : Job) (ts : Nat) :
+    (∀ t : TId, t.aid ≠ j.aid → get t (step db (.add j ts)).time = get t db.time) ∧
+    (∀ a : Nat, a ≠ j.aid → get a (step db (.add j ts)).jobs = get a db.jobs) :=
+  add_other db j ts
+
+open Crolt in
+/-- A recurring job never runs before the occurrence it runs for, jitter included: every run recorded in the life of a job with a
+cron expression (any period `p ≠ 0`, any `MaxJitter`, any sequence of polls with any draws of the random number) served an
+occurrence of the schedule that lies strictly before the clock reading of the due test. -/
+theorem crolt_not_before_due (p max now u : Nat) (hp : p ≠ 0) (ops : List ROp) :
+    ∀ r ∈ (rrun p max (rinit p max now u) ops).runs, r.1 % p = 0 ∧ r.1 < r.2 := by
+  intro r hr
+  obtain ⟨_, a, b⟩ := (RInv_run hp (RInv_init p max now u) ops).served r hr
+  exact ⟨b, a⟩
+
+open Crolt in
+/-- … and it runs at most once per occurrence: the occurrences served by its successive runs are strictly increasing (the log is
+newest first). Before the repair of `Cron.Jitter` a negative jitter let the job run before its occurrence and `Next(now)` was then
+that same occurrence again. -/
+theorem crolt_one_run_per_occurrence (p max now u : Nat) (hp : p ≠ 0) (ops : List ROp) :
+    ((rrun p max (rinit p max now u) ops).runs.map (·.1)).Pairwise (· > ·) :=
+  (RInv_run hp (RInv_init p max now u) ops).incr
 
 /-! ## non-vacuity: the hypotheses are met by non-trivial instances -/
 
@@ -306,12 +407,41 @@ example :
   refine ⟨rfl, ⟨1, 20, 0, 1⟩, ⟨2, 30, 0, 0⟩, by decide, rfl, rfl, by decide⟩
 
 open CronM in
-/-- `removed_pending_never_fires`: the hypothesis holds (nothing in flight), the removed job never fires, the re-added one does -/
+/-- `removed_never_fires`: the removed job never fires, the re-added one does -/
 example :
     let s := run (init 3) [.add 1 10 0]
-    (∀ j ∈ s.inflight, j.id ≠ 1) ∧
     (run s [.rem 1, .advance 20, .tick, .add 1 30 0, .advance 20, .tick]).log.map (fun f => (f.id, f.serial)) = [(1, 1)] := by
-  refine ⟨by decide, by decide⟩
+  decide
+
+open CronM in
+/-- `rem_during_fn_removes` (the former witness of the finding rem-in-flight): the recurring job 7 fires at 10, `Rem 7` comes while
+its `Fn` runs: it is found, and after `Fn` returned nothing is pending and nothing fires at the next occurrence -/
+example :
+    let s := run (init 5) [.add 7 0 10, .advance 10, .tick]
+    s.running.map (·.id) = [7] ∧ remFound s 7 = true ∧
+    (run s [.rem 7, .done 0, .advance 10, .tick]).log.map (fun f => (f.id, f.due)) = [(7, 10)] ∧
+    (run s [.rem 7, .done 0, .advance 10, .tick]).tl = [] := by
+  decide
+
+open CronM in
+/-- `replace_during_fn_wins` / `unique_pending_per_id`: job 7 (recurring) is replaced by a one-shot due at 25 while its `Fn` runs; the
+return of the old `Fn` leaves the replacement alone, which fires at 25, and the old job never fires again -/
+example :
+    let ops : List Op := [.add 7 0 10, .advance 10, .tick, .add 7 25 0, .done 0, .advance 15, .tick, .advance 20, .tick]
+    (run (init 5) ops).log.map (fun f => (f.id, f.serial, f.due, f.time)) = [(7, 1, 25, 25), (7, 0, 10, 10)] ∧
+    (run (init 5) ops).tl = [] ∧ (run (init 5) ops).running = [] := by
+  decide
+
+open CronM in
+/-- `timer_armed` / `early_delivery_rearms` / `no_starvation` (the former witness of the finding rem-head-disarms): after removing the
+head the timer still points at the removed job's time 100 (≤ 200); its delivery at 100 finds job 2 not ready and re-arms for 200,
+whose delivery fires job 2 -/
+example :
+    let s := run (init 5) [.add 1 100 0, .add 2 200 0, .rem 1, .advance 100]
+    s.armed = some 100 ∧ s.tl.map (·.id) = [2] ∧ (tick s).armed = some 200 ∧
+    (run s [.tick, .advance 100, .tick]).log.map (fun f => (f.id, f.time)) = [(2, 200)] ∧
+    (∃ s', deliverN 1 (run s [.tick, .advance 100]) = some s' ∧ s'.log.map (·.id) = [2]) := by
+  refine ⟨by decide, by decide, by decide, by decide, _, rfl, by decide⟩
 
 open CronM in
 /-- `recurring_once_per_occurrence` / `recurring_rescheduled`: three fires for three different occurrences (occurrence 40 passes while nothing ticks and is skipped) -/
@@ -327,7 +457,7 @@ example :
   decide
 
 open CronM in
-/-- `timer_armed_partial`: a calm history (adds, a replace, ticks, a suspension) -/
+/-- `timer_exact_when_calm`: a calm history (adds, a replace, ticks, a suspension) -/
 example : Calm (init 5) [.add 1 30 0, .add 2 10 0, .add 1 20 0, .suspend, .advance 15, .resume, .tick, .done 1] ∧
     (run (init 5) [.add 1 30 0, .add 2 10 0, .add 1 20 0, .suspend, .advance 15, .resume, .tick, .done 1]).armed = some 20 := by
   refine ⟨?_, by decide⟩
@@ -342,4 +472,23 @@ example :
     let ops : List Op := [.add a 10, .add b 15, .reopen, .work 12 [(⟨10, 1⟩, 100)], .add a 11, .delete 2, .work 200 [(⟨100, 1⟩, 0)]]
     Legal {} ops ∧ (run {} ops).jobs = [] ∧ (run {} ops).time = [] ∧ (run {} ops).log.map (·.aid) = [1] := by
   refine ⟨?_, by decide, by decide, by decide⟩
-  simp [Legal, okOp, Job.fresh]
+  simp [Legal, okOp]
+
+open Crolt in
+/-- `buckets_consistent` / `crolt_tid_is_servers` (the former witness of the finding crolt-tid-injection): the second `Add` carries
+the first job's `TId`; the history is legal all the same, the first job keeps its entry in the time index, the buckets agree -/
+example :
+    let a : Job := ⟨1, none, true, false, false⟩
+    let b : Job := ⟨2, some ⟨10, 1⟩, true, false, false⟩
+    let db := run {} [.add a 10, .add b 20]
+    Legal {} [.add a 10, .add b 20] ∧ (get ⟨10, 1⟩ db.time).map (·.aid) = some 1 ∧ (get ⟨20, 2⟩ db.time).map (·.aid) = some 2 ∧
+    (get 2 db.jobs).map (·.tid) = some (some ⟨20, 2⟩) := by
+  refine ⟨by simp [Legal, okOp], by decide, by decide, by decide⟩
+
+open Crolt in
+/-- `crolt_one_run_per_occurrence` / `crolt_not_before_due`: an every-second job (p = 1000 ms, MaxJitter 900 ms) added at 1234 with
+draws 100, 850, 0, 0, polled every 300 ms: four runs, for the occurrences 2000, 3000, 4000 and 5000, each after its occurrence -/
+example :
+    (rrun 1000 900 (rinit 1000 900 1234 100) [.advance 600, .poll 1 850, .advance 300, .poll 1 850, .advance 300, .poll 1 850,
+        .advance 1500, .poll 1 0, .advance 300, .poll 1 0, .advance 300, .poll 1 0, .advance 300, .poll 1 0, .advance 300, .poll 1 5]).runs
+      = [(5000, 5137), (4000, 4236), (3000, 3935), (2000, 2134)] := by decide
